@@ -303,6 +303,12 @@ def _compute_integral_ir(
             _blockmap.append(dofmap)
         blockmap = tuple(_blockmap)
 
+        diagonal = TensorPart.from_str(p["part"]) == TensorPart.diagonal
+        if diagonal and len(blockmap) == 2 and blockmap[0] != blockmap[1]:
+            # Block of two different components, sub-elements or
+            # restrictions: no entry of it lies on the diagonal
+            continue
+
         block_is_uniform = all(tr.is_uniform for tr in trs)
 
         # Collect relevant restrictions to identify blocks correctly
